@@ -1,5 +1,6 @@
 // instantiation driver (C12): instantiates the members of the DynamicBitset
 // iterator templates.  Contains no copy of repository code.
+#include <bitset>
 #include "celma/container/dynamic_bitset.hpp"
 
 namespace verif_driver {
@@ -20,6 +21,11 @@ size_t drive( celma::container::DynamicBitset& bs, const celma::container::Dynam
    auto  i3 = bs.rend();  --i3;  i3--;
    auto  i4 = cbs.rend(); --i4;  i4--;
    sum += cbs.to_string().length() + cbs.to_string< char>( 'o', 'x').length();
+   // the member templates that take a std::bitset
+   const std::bitset< 8>  fixed( 0x5a);
+   celma::container::DynamicBitset  from_fixed( fixed);
+   bs = fixed;
+   sum += from_fixed.size();
    return sum + *i1 + *i2 + *i3 + *i4;
 }
 
